@@ -165,6 +165,7 @@ class Interp:
         self.handling: list[PyRaise] = []
         self.taint_mode = "abort"       # "abort": a position/length-dependent branch stops the analysis;
         self.taint_hits: list[str] = []  # "concrete": it is decided on the representative and recorded here
+        self.length_compares: list[str] = []   # shape comparisons between different dimensions (covered by the uniform-length family)
 
     # ================================================================ objects
     def construct(self, cls: ClassInfo, args, kwargs, node=None):
@@ -952,6 +953,14 @@ class Interp:
             raise AnalysisAbort(f"branch on {v!r}")
         return bool(v)
 
+    def length_eq_taint(self, l, r, n):
+        """lengths of two different axes compared: equal for some inputs, different for others"""
+        if isinstance(l, TInt) and isinstance(r, TInt) and l.src is not None and r.src is not None and l.src != r.src:
+            self.length_compares.append(f"lengths of different dimensions compared (line {n.lineno}) in {self.stack[-1] if self.stack else '?'}")
+        elif isinstance(l, tuple) and isinstance(r, tuple) and len(l) == len(r):
+            for a, b in zip(l, r):
+                self.length_eq_taint(a, b, n)
+
     def tainted(self, what):
         """control flow depends on a representative length/position: outside the finite abstraction"""
         if self.taint_mode == "abort":
@@ -1550,6 +1559,7 @@ class Interp:
             for x in (l, r):
                 if isinstance(x, TInt) and x.src is None:
                     self.tainted(f"equality test on a position-derived integer (line {n.lineno}) in {self.stack[-1] if self.stack else '?'}")
+            self.length_eq_taint(l, r, n)
             return self.py_eq(l, r) if isinstance(op, ast.Eq) else not self.py_eq(l, r)
         if isinstance(l, TInt) or isinstance(r, TInt):
             self.tainted(f"ordered comparison on a length/position-derived integer (line {n.lineno}) in "
